@@ -239,7 +239,8 @@ type connResult struct {
 //	ter=0|1         answer through TimeoutErrorWithResponse(resp) (1: resp.SetConnectionClose())
 //	stream=DECL:ACTUAL   SetBodyStream(reader of ACTUAL bytes, DECL)   (DECL=-1 unknown size)
 //	srd=p|e|1|z     the stream's reader: plain Read loop / final bytes together with io.EOF / one byte per Read /
-//	                a (0, nil) Read before every piece   (default: *bytes.Reader, which is an io.WriterTo)
+//	                a (0, nil) Read before every piece / x: Read fails before the first byte / X: fails after the first piece
+//	                (default: *bytes.Reader, which is an io.WriterTo)
 //	sw=N            SetBodyStreamWriter writing N bytes in 3 pieces
 //	te=1            ctx.TimeoutError("timed out!") then keep mutating
 //	uv=1            set a user value (must not be visible to the next request)
@@ -598,14 +599,18 @@ func trunc(b []byte, n int) []byte {
 
 // modeReader is an io.Reader (not an io.WriterTo) with selectable, contract-conforming behaviour.
 type modeReader struct {
-	data []byte
-	mode string // "p" plain, "e" final bytes together with io.EOF, "1" one byte per Read, "z" a (0, nil) Read before every piece
-	zero bool
+	data   []byte
+	mode   string // "p" plain, "e" final bytes together with io.EOF, "1" one byte per Read, "z" a (0, nil) Read before every piece, "x"/"X" fails
+	zero   bool
+	served int
 }
 
 func (m *modeReader) Read(p []byte) (int, error) {
 	if len(p) == 0 {
 		return 0, nil
+	}
+	if m.mode == "x" || (m.mode == "X" && m.served >= 1000) {
+		return 0, errors.New("scripted stream failure") // x: before the first byte, X: after the first piece
 	}
 	if len(m.data) == 0 {
 		return 0, io.EOF
@@ -623,6 +628,7 @@ func (m *modeReader) Read(p []byte) (int, error) {
 	}
 	n = copy(p[:n], m.data)
 	m.data = m.data[n:]
+	m.served += n
 	if len(m.data) == 0 && m.mode == "e" {
 		return n, io.EOF
 	}
